@@ -121,7 +121,8 @@ def child_main():
                                  for h in ("pre_run", "post_run", "pre_run_task", "post_run_task")})
         obs = {}
         try:
-            with Submitter(worker=sc.get("worker", "debug"), cache_root=cfg["cache_root"]) as sub:
+            kw = {"n_procs": 2} if sc.get("worker") == "cf" else {}     # a pool of 2 processes instead of one per cpu
+            with Submitter(worker=sc.get("worker", "debug"), cache_root=cfg["cache_root"], **kw) as sub:
                 res = sub(task, hooks=hooks, rerun=sc.get("rerun", False))
             checkpoint("drv.returned")
             obs = {"outcome": "returned", "errored": bool(res.errored), "out": _outputs_value(sc, res.outputs),
@@ -566,7 +567,9 @@ def run_scenario(sc, workroot=None):
                 hooks = open(hl).read().split() if os.path.exists(hl) else []
                 kill = [r for r in cd.get("rules", []) if r.get("action") in ("exit", "truncate")]
                 children[c.pid] = dict(idx=c.idx, subs=subs, inject=tuple(cd["inject"]) if cd.get("inject") else None,
-                                       crashed=(rc == 137), rc=rc, killed_worker=bool(kill) and rc != 137,
+                                       # rc None: the harness's own watchdog killed the whole tree (SIGKILL) - a kill like any other
+                                       crashed=(rc == 137 or rc is None), rc=rc,
+                                       killed_worker=bool(kill) and rc not in (137, None),
                                        kill_label=kill[0]["label"] if kill else None, pids=[c.pid] + sorted(c.kids))
                 for kp in c.kids:
                     children[kp] = children[c.pid]
